@@ -267,7 +267,8 @@ def check_mixture(path, case, res):
     from gffutils import iterators
     cl = case["checklines"]
     it = iterators.DataIterator(path, checklines=cl)
-    want_t = weighted_choice_oracle([tuple(v) for v in case["votes"]][: cl + 1])
+    # the window is the first checklines+1 FEATURE lines; comment, blank and directive lines (vote None) do not count
+    want_t = weighted_choice_oracle([tuple(v) for v in case["votes"] if v is not None][: cl + 1])
     if it.dialect["trailing semicolon"] != want_t:
         common.fail(res, case, "mixed_window_trailing",
                     "mixed window: trailing-semicolon choice is not the weighted majority",
@@ -448,7 +449,7 @@ def run(ctx):
             check_database(ctx, path, file_case("database", lines, specs, name), specs, res)
 
     # mixtures inside the window of a real file: trailing semicolon on some lines ----------------------------------
-    for i in range(40 if not ctx.thorough else 400):
+    for i in range(250 if not ctx.thorough else 2500):
         nlines = r.randrange(2, 7)
         base = consistent_file(r, 1)[0]
         specs = consistent_file(r, nlines, base=base)
@@ -466,11 +467,17 @@ def run(ctx):
             pos = r.randrange(0, len(lines) + 1)
             lines.insert(pos, "chr1\tsrc\tregion\t1\t9\t.\t+\t.\t")
             votes.insert(pos, (False, 0))
+        if r.random() < 0.5:
+            # comment / blank / directive lines between the features: they are not features and take no place in the window
+            for _ in range(r.randrange(1, len(lines) + 2)):
+                pos = r.randrange(0, len(lines) + 1)
+                lines.insert(pos, r.choice(["###", "# a comment", "", "##sequence-region chr1 1 1000"]))
+                votes.insert(pos, None)
         name = "m%d.gff" % i
         path = write_file(ctx, name, lines)
-        cl = r.choice([0, 1, nlines, 10])
+        cl = r.choice([0, 1, 1, 2, nlines, 10, max(0, nlines - 2)])
         res.evaluations += 1
-        it = check_mixture(path, {"scenario": "mixture", "input": list(lines), "votes": [list(v) for v in votes],
+        it = check_mixture(path, {"scenario": "mixture", "input": list(lines), "votes": [None if v is None else list(v) for v in votes],
                                   "parallel": ["votes"], "checklines": cl, "file_name": name}, res)
         cmds.append("file %d none none %s" % (cl, pyside.enc_list(lines)))
         exp.append("ok " + pyside.enc_dialect(it.dialect)); tags.append(("DataIterator.dialect (mixture)", repr(lines)))
